@@ -24,6 +24,9 @@ class Gen(ExprGen):
         self.variant_direct = self.L >= 3 and rng.chance(1, 25)
         self.empty_vararg_first = self.L >= 4 and rng.chance(1, 40)
         self.selfref_literal = self.L >= 2 and rng.chance(1, 20)
+        # README is silent on whether a switch argument is a copy of the payload or an alias of the scrutinee (capy aliases),
+        # so no program writes the scrutinee inside an arm: not constrained by the statement, not judged
+        self.scrutinee_write = False
         self.weak_lit_errunion = self.L >= 3 and rng.chance(1, 30)
         self.unused_varargs = self.L >= 4 and rng.chance(1, 30)
         self.array_arm_binding = self.L >= 3 and rng.chance(1, 25)
@@ -292,7 +295,7 @@ class Gen(ExprGen):
                 if self.unused_varargs:
                     self.use("unused_varargs")
                 else:
-                    touch.append(N("decl", name=self.fresh(), ty=USIZE, mut=False, init=N("len", e=N("var", name=pn, ty=("slice", pt)), ty=USIZE), annotate=True))
+                    touch.append(N("decl", name=self.fresh(), ty=USIZE, mut=False, init=N("len", e=N("var", name=pn, ty=("slice", pt)), ty=USIZE), annotate=True, keep=True))
         body.stmts = touch + pre + body.stmts
         f.body = body
         return f
@@ -742,6 +745,16 @@ class Gen(ExprGen):
             return [N("assign", place=place, op=self.rng.pick(ASSIGN_OPS), e=self.gen_int(ctx, ty, 1))]
         return [N("assign", place=place, op="=", e=self.safe_rhs(ctx, place, ty, self.gen_expr(ctx, ty, 2)))]
 
+    def via_ref(self, e):
+        while e.k in ("field", "index", "deref", "unwrap", "cast"):
+            if e.k == "deref":
+                return True
+            nxt = e.base if e.k in ("field", "index") else e.e
+            if e.k in ("field", "index") and self.base(nxt.ty)[0] in ("ptr", "slice"):
+                return True
+            e = nxt
+        return False
+
     def through_ptr(self, e):
         while e.k in ("field", "index"):
             if e.k == "field" and self.base(e.base.ty)[0] == "ptr":
@@ -1008,6 +1021,31 @@ class Gen(ExprGen):
             self.use("switch_default")
         bind = self.fresh("w")
         arms = []
+        # README does not say whether the switch argument is a copy of the payload: unless the program opted in
+        # ('scrutinee_write', a recorded finding: the argument aliases the scrutinee), nothing inside the arms
+        # writes the scrutinee variable (directly, through a pointer / slice, or by passing ^mut of it)
+        if not self.scrutinee_write and self.via_ref(scrut):
+            # reached through a pointer / slice: the storage has other names, so switch over an immutable copy
+            if not ctx.hoist:
+                return None
+            scrut = var(self.hoist_decl(ctx, sty, scrut, mut=False))
+        root = self.root_name(scrut)
+        froze = False
+        if root is not None and not self.scrutinee_write:
+            ctx.frozen.append(root)
+            froze = True
+        elif root is not None:
+            self.use("scrutinee_write_allowed")
+        try:
+            return self._switch_arms(ctx, vty, scrut, sty, b, order, named, bind)
+        finally:
+            if froze:
+                ctx.frozen.pop()
+
+    def _switch_arms(self, ctx, vty, scrut, sty, b, order, named, bind):
+        rng = self.rng
+        arms = []
+        default = None
         for target, tag in named:
             bt = self.bind_ty(sty, target)
             if bt is not None and target[0] == "type" and self.base(bt)[0] == "array":
